@@ -80,7 +80,7 @@ def legacyRebase (ver : Int) (wrapOff : Int) (lastOff : Int) (offset : Int) (inn
   if (ver ≥ 1) then
     let baseOffset_v1 : Int := (Go.sub64 wrapOff lastOff)
     let offset_v1 : Int := (Go.add64 offset baseOffset_v1)
-    if (innerLA = true) then
+    if (wrapLA = true) then
       let ts_v1 : Int := wrapTs
       (offset_v1, ts_v1)
     else
